@@ -48,14 +48,18 @@ LogClause(c, r) ==
 
 \* ---- recursive on the grid
 CertFun(g) == [X \in Nts(g) |-> [ea \in ExtAssts(g, X) |-> g.cert[X][BFlat(ShapeOf(g, X), ea)]]]
+\* the smallest pad of the ladder for which lower + pad is a post-fixed point (0 = none: no claim)
+Pads == <<8, 32, 128>>
+PadFor(c, cert, e, lo) ==
+  LET okp == SelectSeq(Pads, LAMBDA p: DUpperOK(c.ag, cert, e[1], e[2], lo, p)) IN IF okp = <<>> THEN 0 ELSE okp[1]
 FxClause(c, r, cert) ==
   IF \E e \in EntriesFx(c) :
        LET lo == DLower(c.ag, cert, e[1], e[2], 40)
-           okpad == DUpperOK(c.ag, cert, e[1], e[2], lo, c.pad)
+           pad == PadFor(c, cert, e, lo)
            glo == FoldSet(LAMBDA ea, acc: acc + CotAt(c, ea) * lo[S(c)][ea], 0, StartAssts(c))
-           ghi == FoldSet(LAMBDA ea, acc: acc + CotAt(c, ea) * (lo[S(c)][ea] + c.pad), 0, StartAssts(c))
+           ghi == FoldSet(LAMBDA ea, acc: acc + CotAt(c, ea) * (lo[S(c)][ea] + pad), 0, StartAssts(c))
            o == r.grads[e[1]][e[2]]
-       IN okpad /\ (IF IsAbsent(o) THEN glo > 2 ELSE (o[2] + 2 < glo \/ o[1] - 2 > ghi))
+       IN pad > 0 /\ (IF IsAbsent(o) THEN glo > 2 ELSE (o[2] + 2 < glo \/ o[1] - 2 > ghi))
   THEN "GradientIsTheTrueDerivative" ELSE "ok"
 
 \* Log semiring on a certified grid grammar with SCALAR start symbol: d log Z / d log w = w (dZ/dw) / Z.
@@ -66,13 +70,13 @@ FxLogClause(c, r, cert) ==
   IF ShapeOf(c.ag, S(c)) # <<>> \/ Z = 0 THEN "ok"
   ELSE IF \E e \in { e \in EntriesFx(c) : c.ag.wfx[e[1]][e[2]] # 0 } :
        LET lo == DLower(c.ag, cert, e[1], e[2], 40)
-           okpad == DUpperOK(c.ag, cert, e[1], e[2], lo, c.pad)
+           pad == PadFor(c, cert, e, lo)
            w == c.ag.wfx[e[1]][e[2]]
            a == w * lo[S(c)][<<>>]
-           b == w * (lo[S(c)][<<>>] + c.pad)
+           b == w * (lo[S(c)][<<>>] + pad)
            o == r.grads[e[1]][e[2]]
            slack == 3 * Z + 3 * w
-       IN okpad /\ (IF IsAbsent(o) THEN a > slack ELSE (o[2] * Z + slack < a \/ o[1] * Z - slack > b))
+       IN pad > 0 /\ (IF IsAbsent(o) THEN a > slack ELSE (o[2] * Z + slack < a \/ o[1] * Z - slack > b))
   THEN "LogGradientIsTheDerivativeOfLogZ" ELSE "ok"
 
 Verdict(c) ==
